@@ -3,6 +3,7 @@ no crash, no hang, error marks inside the input."""
 import io
 import itertools
 import random
+import re
 import signal
 
 import yaml
@@ -183,6 +184,22 @@ class Runner:
                         viol.update({'op': op, 'backend': bname, 'via_stream': vs, 'outcome': out})
                         ctx.violation({'data': data, 'op': op, 'backend': bname, 'via_stream': vs}, viol, classify(data, bname, viol))
         ctx.case(core.h64(data if isinstance(data, (bytes, str)) else repr(data)), len(data) > 0, [cls])
+        if isinstance(data, str) and '&' in data and cls != 'probe':
+            self.after_probe(data)
+
+    def after_probe(self, data):
+        """Every loader starts from nothing: right after an input that defined anchors (and perhaps failed half-way), a fresh
+        loader must not know them - '*name' is an undefined alias and '&name x' is not a duplicate, with marks inside the probe."""
+        ctx = self.ctx
+        for name in re.findall(r'&([A-Za-z0-9_-]{1,20})', data)[:2]:
+            for bname, loader in self.backends:
+                for probe, want in (('*%s\n' % name, 'ComposerError'), ('&%s x\n' % name, 'ok')):
+                    out, viol = self.run_one(probe, 'compose_all', bname, loader)
+                    ctx.stat('after_probes')
+                    if viol or not out.startswith(want):
+                        v = dict(viol or {})
+                        v.update({'what': v.get('what', 'a fresh loader sees state left by the previous input'), 'probe': probe, 'outcome': out, 'expected': want, 'backend': bname})
+                        ctx.violation({'data': probe, 'after': data, 'backend': bname}, v, None)
 
 
 def has_lone_surrogate(s):
@@ -237,6 +254,16 @@ def fixed_inputs():
             out.append(((ch + '\n') * n, 'long_run_odd'))
             out.append(('- x\n' + (ch + ' # c\n') * n + '- y\n', 'long_run_odd'))
             out.append(('k: "' + (ch + '\n') * n + '"\n', 'long_run_odd'))
+    # characters that Python's str predicates (isdigit, isdecimal, isalnum, isspace, int()) treat as digits / letters / blanks
+    # and YAML does not, at every place where the grammar wants an ASCII digit, word character or blank
+    pyc = [chr(0xb2), chr(0xb9), chr(0x2460), chr(0x2082), chr(0x663), chr(0xff12), chr(0x9ea), chr(0x2167), chr(0xbd), chr(0xaa), chr(0xb5), chr(0xff21), chr(0x3b1),
+           chr(0x1d7d8), chr(0x2003), chr(0xa0), chr(0x3000), chr(0x1680)]
+    for w in pyc:
+        for tpl in ('|%s\n a', '>%s-\n a', '|-%s\n a', '|+%s\n a', 'k: |%s\n  a', '- >%s\n  a', '|%s%s\n a', '|1%s\n a', '%%YAML %s.1\n--- a', '%%YAML 1.%s\n--- a', '%%YAML 1%s.1\n--- a',
+                    '%%TAG !%s! tag:x\n--- !%s!a b', '%%TAG !e%s! tag:x\n--- a', '!%s!a b', '&%s a', '*%s', '&a%s b', '- &%s a\n- *%s', '"\\x%s1"', '"\\x1%s"', '"\\u00%s1"', '"\\U0000004%s"',
+                    '!a%%%s1 b', '!a%%4%s b', '!<%%%s1> a', '%%TAG !e! tag:%%%s1\n--- a', '%s', '- %s', '%s: %s', '2001-01-0%s', '1%s', '0x%s', '1.%s', '1:%s0', '%s1', '-%s', '[%s]', '{%s: %s}',
+                    'a:%sb', '-%sa', '?%sa', 'a: b%s# c', '%%YAML%s1.1\n--- a', 'a%s: b'):
+            out.append((tpl.replace('%s', w).replace('%%', '%'), 'pyclass'))
     out.append(('"\\U00110000"', 'escape_num'))
     out.append(('"\\UFFFFFFFF"', 'escape_num'))
     out.append(("'\\U00110000'", 'escape_num'))
@@ -376,7 +403,10 @@ def run(spec, ctx):
 def replay(case, ctx):
     rn = Runner(ctx, conly=ctx.spec.get('conly', False))
     data = case['data']
-    if 'op' in case:
+    if 'after' in case:
+        ctx.case(core.h64(repr(case)), True)
+        rn.case(case['after'], 'replay', streams=True)
+    elif 'op' in case:
         loader = yaml.Loader if case['backend'] == 'py' else yaml.CLoader
         out, viol = rn.run_one(data, case['op'], case['backend'], loader, case.get('via_stream', False))
         ctx.case(core.h64(repr(case)), True)
